@@ -190,14 +190,16 @@ class ResourceManager:
             return dir, xdr
 
         def resolve(resource, dir, xdr, path, attrs):
+            # Evaluate the attributes into a new dictionary: `attrs` may be the dictionary of
+            # the resource definition itself, which is shared between platform instances.
+            resolved_attrs = OrderedDict()
             for attr_key, attr_value in attrs.items():
                 if hasattr(attr_value, "__call__"):
                     attr_value = attr_value(self)
                     assert attr_value is None or isinstance(attr_value, str)
-                if attr_value is None:
-                    del attrs[attr_key]
-                else:
-                    attrs[attr_key] = attr_value
+                if attr_value is not None:
+                    resolved_attrs[attr_key] = attr_value
+            attrs = resolved_attrs
 
             if isinstance(resource.ios[0], Subsignal):
                 res = PortGroup()
